@@ -21,6 +21,8 @@ def eval_pre_dispatch(pd, n_jobs):
 
 def max_batch(spec):
     if spec["batch_size"] == "auto":
+        if spec.get("auto_mode") == "mixin":
+            return 64      # the heuristic at most doubles per completed batch; histories here are short
         return max(spec.get("auto_sizes") or [1])
     return spec["batch_size"]
 
@@ -39,6 +41,11 @@ def configs(draw, return_as=("list",), inputs=("list", "generator", "iterator"))
         "input": draw(st.sampled_from(list(inputs))),
         "timeout": None,
     }
+    if bs == "auto" and draw(st.booleans()):
+        # joblib's own auto-batching heuristic, driven by drawn (not wall-clock) batch durations
+        spec["auto_mode"] = "mixin"
+        spec["durations"] = draw(st.lists(st.sampled_from([0.0001, 0.001, 0.01, 0.05, 0.19, 0.2, 0.5, 1.0, 1.9, 2.1, 3.0, 5.0, 30.0]),
+                                          min_size=1, max_size=8))
     return spec
 
 
@@ -64,7 +71,9 @@ def gates(kinds=("iter", "submit", "batchsize", "retrieve", "batchdone"), max_ga
     # a worker thread parked early inside a hook that runs under joblib's lock, until the next consumer action started
     parked = st.fixed_dictionaries({"gate": st.sampled_from(["iter", "retrieve", "retrieve", "batchdone"]), "at": st.integers(0, 6),
                                     "do": st.just([]), "park": st.just(True)})
-    return st.lists(st.one_of(g, g, parked), max_size=max_gates, unique_by=lambda x: (x["gate"], x["at"]))
+    # a completion callback delayed in batch_completed() (outside joblib's lock) until the NEXT call is under way
+    stale = st.fixed_dictionaries({"gate": st.just("batchdone"), "at": st.integers(0, 4), "do": st.just([]), "park": st.just("next_call")})
+    return st.lists(st.one_of(g, g, parked, stale), max_size=max_gates, unique_by=lambda x: (x["gate"], x["at"]))
 
 
 # ---- trace analyses shared by the property modules --------------------------------------
